@@ -42,8 +42,9 @@ Pred(p, L) ==
          IF ~Has(L, p.label) THEN [keep |-> FALSE, L |-> L, open |-> FALSE]             \* no such label: drop
          ELSE LET v == Parse(p.t, Get(L, p.label)) IN
               IF v.k = "bad" THEN [keep |-> TRUE, L |-> SetError(L), open |-> FALSE]     \* unparsable: keep, flag
-              ELSE IF v.k = "unspec" THEN [keep |-> TRUE, L |-> L, open |-> TRUE]
-              ELSE [keep |-> RCmp(p.op, [n |-> v.n, d |-> v.d], [n |-> p.val[1], d |-> p.val[2]]), L |-> L, open |-> FALSE]
+              ELSE IF v.k = "unspec" \/ ~CmpFits([n |-> v.n, d |-> v.d], Norm(p.val[1], p.val[2])) THEN [keep |-> TRUE, L |-> L, open |-> TRUE]
+              \* (the literal's pair is reduced first: products in the comparison must stay within 31 bits)
+              ELSE [keep |-> RCmp(p.op, [n |-> v.n, d |-> v.d], Norm(p.val[1], p.val[2])), L |-> L, open |-> FALSE]
     \* addr = ip("..."): no such label: drop; a value that is no address: keep and flag; IPv6 texts are outside the model
     [] p.t = "ip" ->
          IF ~Has(L, p.label) THEN [keep |-> FALSE, L |-> L, open |-> FALSE]
